@@ -432,9 +432,12 @@ Print Assumptions xmr_b58_errors.
    Where the payload is a hash the "encoder" is the text layer applied to the returned payload (no hash
    pre-image is claimed); where it is a key it is the real address encoder.
    Where the corollary is FALSE of the faithful model:  [..._refuted] (concrete witness, kernel-evaluated) and
-   [..._partial] (what holds, with the exact extra condition).  The refuted ones are library defects, confirmed on
-   /repo by harness/props/C10.py:  C10-XMR-INTEG-LEN, C10-P2WPKH-LEN, C10-ALGO-NONCANON, C10-FIL-NONCANON,
-   C10-NANO-PADBITS, C10-BYRON-TRAILING (and the Aptos zero-padding laxness, which its standard allows).
+   [..._partial] (what holds, with the exact extra condition): Aptos (zero padding, which its standard allows) and
+   Byron (cbor2 accepts every well-formed CBOR spelling, e.g. non-minimal integer heads).
+   The refutations of the first round were library defects (C10-XMR-INTEG-LEN, C10-P2WPKH-LEN, C10-ALGO-NONCANON,
+   C10-FIL-NONCANON, C10-NANO-PADBITS, C10-BYRON-TRAILING), since repaired in /repo; the models follow the repaired
+   code, the statements are now the FULL ones (accepted <-> encoder output), and the former witnesses are kept as
+   [..._rejected] theorems.
    Hashes, key validity, cbor2 parsing are oracles (universally quantified; refutations exhibit an instance).
    ############################################################################################################ *)
 From Coq Require Import ZArith.
@@ -650,31 +653,29 @@ Qed.
 Print Assumptions inj_zil_okex_one_decode_accepts_iff.
 
 (* ================================================================== SegWit / CashAddr addresses *)
-(* P2WPKH: version 0 only -- the program length is NOT examined.  What holds (p2wpkh_accepted_partial): the string
-   is the SegWit encoder's text and the program has 20 or 32 bytes; with the missing check, 20. *)
+(* P2WPKH: version 0 and a 20-byte program; accepted = the SegWit encoder's text for the returned key hash *)
 Theorem p2wpkh_decode_accepts_iff : forall hrp s d,
-  (p2wpkh_decode segwit_decode hrp s = Ok d <-> segwit_decode hrp s = Ok (p2wpkh_wit_ver, d)) /\
+  (p2wpkh_decode segwit_decode hrp s = Ok d <->
+   segwit_decode hrp s = Ok (p2wpkh_wit_ver, d) /\ length d = hash160_len) /\
   (p2wpkh_decode segwit_decode hrp s = Ok d ->
-   segwit_encode hrp p2wpkh_wit_ver d = Ok (py_lower s) /\ In (length d) segwit_v0_lens) /\
-  (p2wpkh_decode segwit_decode hrp s = Ok d -> length d <> 32%nat ->
    segwit_encode hrp p2wpkh_wit_ver d = Ok (py_lower s) /\ length d = hash160_len).
 Proof.
-  intros hrp s d. split; [exact (Lemmas.AddrAcceptText.p2wpkh_accepts_iff segwit_decode hrp s d)|].
-  split; [exact (Lemmas.AddrAcceptText.p2wpkh_accepted_partial hrp s d)|exact (Lemmas.AddrAcceptText.p2wpkh_accepted_is_encoding_20 hrp s d)].
+  intros hrp s d. split; [exact (Lemmas.AddrAcceptText.p2wpkh_accepts_iff segwit_decode hrp s d)|
+                          exact (Lemmas.AddrAcceptText.p2wpkh_accepted_is_encoding hrp s d)].
 Qed.
 Print Assumptions p2wpkh_decode_accepts_iff.
 
-(* Full statement  p2wpkh_decode hrp s = Ok d -> length d = 20  (a P2WPKH address carries a HASH160) is FALSE:
-   every P2WSH address (version 0, 32-byte program) is accepted and 32 bytes are returned.
-   Witness bc1qqqqsyqcyq5rqwzqfpg9scrgwpugpzysnzs23v9ccrydpk8qarc0szrtjt7 ; finding C10-P2WPKH-LEN. *)
-Theorem p2wpkh_length_refuted : exists hrp s d, p2wpkh_decode segwit_decode hrp s = Ok d /\ length d = 32%nat.
-Proof. exact Lemmas.AddrAcceptText.p2wpkh_length_refuted. Qed.
-Print Assumptions p2wpkh_length_refuted.
+(* the SegWit layer alone admits 32-byte programs for version 0 (P2WSH); the address decoder refuses them
+   (witness of the repaired finding C10-P2WPKH-LEN: bc1qqqqsyqcyq5rqwzqfpg9scrgwpugpzysnzs23v9ccrydpk8qarc0szrtjt7) *)
+Theorem p2wpkh_rejects_p2wsh : exists hrp s prog,
+  segwit_decode hrp s = Ok (0, prog) /\ length prog = 32%nat /\ p2wpkh_decode segwit_decode hrp s = Err ValueError.
+Proof. exact Lemmas.AddrAcceptText.p2wpkh_rejects_p2wsh. Qed.
+Print Assumptions p2wpkh_rejects_p2wsh.
 
 Example p2wpkh_accepted_example : exists d,
   p2wpkh_decode segwit_decode [98; 99] [66; 67; 49; 81; 87; 53; 48; 56; 68; 54; 81; 69; 74; 88; 84; 68; 71; 52; 89; 53; 82;
-    51; 90; 65; 82; 86; 65; 82; 89; 48; 67; 53; 88; 87; 55; 75; 86; 56; 70; 51; 84; 52] = Ok d /\ length d <> 32%nat.
-Proof. eexists. split; [vm_compute; reflexivity|vm_compute; discriminate]. Qed.   (* BC1QW508D6QEJXTDG4Y5R3ZARVARY0C5XW7KV8F3T4 *)
+    51; 90; 65; 82; 86; 65; 82; 89; 48; 67; 53; 88; 87; 55; 75; 86; 56; 70; 51; 84; 52] = Ok d.
+Proof. eexists. vm_compute. reflexivity. Qed.   (* BC1QW508D6QEJXTDG4Y5R3ZARVARY0C5XW7KV8F3T4 *)
 Print Assumptions p2wpkh_accepted_example.
 
 (* P2TR: version 1 and 32 bytes (whether they are the x coordinate of a curve point is not examined by the
@@ -734,102 +735,107 @@ Proof.
 Qed.
 Print Assumptions base32_canonical_form.
 
-(* Algorand.  36 bytes are 58 symbols with TWO spare bits that base64.b32decode does not examine, and a
-   written-out '=' padding is accepted as well: what holds is algo_accepted_partial (second clause) *)
+Definition hash_laws (h : list N -> list N) (n : nat) : Prop := (forall x, length (h x) = n) /\ (forall x, bytes_ok (h x)).
+Definition xof_laws (h : nat -> list N -> list N) : Prop := (forall n x, length (h n x) = n) /\ (forall n x, bytes_ok (h n x)).
+
+(* Algorand: 36 bytes are 58 symbols with two spare bits; the decoder re-encodes and compares, so:
+   accepted <-> the string is the encoder's output for a valid 32-byte key *)
 Theorem algo_decode_accepts_iff : forall (sha512_256 : list N -> list N) (valid_pub : N -> list N -> bool) s pub,
-  (algo_decode sha512_256 valid_pub b32_dec s = Ok pub <->
-   b32_dec None s = Ok (pub ++ algo_checksum sha512_256 pub) /\ length pub = (ed25519_compr_len - 1)%nat /\
-   length (algo_checksum sha512_256 pub) = algo_cklen /\ valid_pub 2 pub = true) /\
-  (algo_decode sha512_256 valid_pub b32_dec s = Ok pub ->
-   valid_pub 2 pub = true /\ length pub = (ed25519_compr_len - 1)%nat /\
-   exists ds k pend, s = map (sym32 rfc_alphabet) ds ++ repeat rfc_pad k /\ length ds = 58%nat /\ Radix.digits_ok 32 ds /\
-     pend < 4 /\ Radix.from_be 32 ds = be_to_int (pub ++ algo_checksum sha512_256 pub) * 4 + pend /\
-     (k = 0%nat -> pend = 0 -> algo_encode sha512_256 b32_enc_nopad pub = Ok s)).
+  (algo_decode sha512_256 valid_pub b32_enc_nopad b32_dec s = Ok pub <->
+   b32_dec None s = Ok (pub ++ algo_checksum sha512_256 pub) /\ algo_encode sha512_256 b32_enc_nopad pub = Ok s /\
+   length pub = (ed25519_compr_len - 1)%nat /\ length (algo_checksum sha512_256 pub) = algo_cklen /\ valid_pub 2 pub = true) /\
+  (hash_laws sha512_256 32 ->
+   (algo_decode sha512_256 valid_pub b32_enc_nopad b32_dec s = Ok pub <->
+    algo_encode sha512_256 b32_enc_nopad pub = Ok s /\ bytes_ok pub /\ length pub = (ed25519_compr_len - 1)%nat /\
+    valid_pub 2 pub = true)).
 Proof.
-  intros h vp s pub. split; [exact (Lemmas.AddrAcceptB32.algo_accepts_iff h vp b32_dec s pub)|
-                             exact (Lemmas.AddrAcceptB32.algo_accepted_partial h vp s pub)].
+  intros h vp s pub. split; [exact (Lemmas.AddrAcceptB32.algo_accepts_iff h vp b32_enc_nopad b32_dec s pub)|].
+  intros [H1 H2]. exact (Lemmas.AddrAcceptB32.algo_accepts_iff_concrete h vp H1 H2 s pub).
 Qed.
 Print Assumptions algo_decode_accepts_iff.
 
-(* Full statement (accepted => algo_encode pub = Ok s) is FALSE.  Instance with the constant-zero hash: the address
-   "AAA...A" (58), and the accepted "AAA...AB" and "AAA...A======"; the same variants of real addresses are
-   accepted by the library (finding C10-ALGO-NONCANON). *)
-Theorem algo_canonical_refuted : exists s1 s2 s3 pub,
-  algo_encode zero_hash b32_enc_nopad pub = Ok s1 /\ s2 <> s1 /\ s3 <> s1 /\
-  algo_decode zero_hash any_valid b32_dec s1 = Ok pub /\
-  algo_decode zero_hash any_valid b32_dec s2 = Ok pub /\
-  algo_decode zero_hash any_valid b32_dec s3 = Ok pub.
-Proof. exact Lemmas.AddrAcceptB32.algo_canonical_refuted. Qed.
-Print Assumptions algo_canonical_refuted.
-
-(* Stellar: 35 bytes = 56 symbols, no spare bits: accepted = the encoder's output for the returned key *)
+(* Stellar: 35 bytes = 56 symbols, no spare bits: accepted <-> the encoder's output for a valid key *)
 Theorem xlm_decode_accepts_iff : forall (valid_pub : N -> list N -> bool) (crc16_xmodem : list N -> list N) t s pub,
   (xlm_decode valid_pub crc16_xmodem b32_dec t s = Ok pub <->
    b32_dec None s = Ok ((t :: pub) ++ xlm_checksum crc16_xmodem (t :: pub)) /\
    length pub = (ed25519_compr_len - 1)%nat /\ length (xlm_checksum crc16_xmodem (t :: pub)) = xlm_cklen /\
    valid_pub 2 pub = true) /\
   (xlm_decode valid_pub crc16_xmodem b32_dec t s = Ok pub ->
-   xlm_encode crc16_xmodem b32_enc_nopad t pub = Ok s /\ valid_pub 2 pub = true /\ length pub = (ed25519_compr_len - 1)%nat).
+   xlm_encode crc16_xmodem b32_enc_nopad t pub = Ok s /\ valid_pub 2 pub = true /\ length pub = (ed25519_compr_len - 1)%nat) /\
+  (hash_laws crc16_xmodem 2 -> t < 256 ->
+   (xlm_decode valid_pub crc16_xmodem b32_dec t s = Ok pub <->
+    xlm_encode crc16_xmodem b32_enc_nopad t pub = Ok s /\ bytes_ok pub /\ length pub = (ed25519_compr_len - 1)%nat /\
+    valid_pub 2 pub = true)).
 Proof.
-  intros vp crc t s pub. split; [exact (Lemmas.AddrAcceptB32.xlm_accepts_iff vp crc b32_dec t s pub)|
-                                 exact (Lemmas.AddrAcceptB32.xlm_accepted_is_encoding vp crc t s pub)].
+  intros vp crc t s pub. split; [exact (Lemmas.AddrAcceptB32.xlm_accepts_iff vp crc b32_dec t s pub)|].
+  split; [exact (Lemmas.AddrAcceptB32.xlm_accepted_is_encoding crc vp t s pub)|].
+  intros [H1 H2] Ht. exact (Lemmas.AddrAcceptB32.xlm_accepts_iff_concrete crc vp H1 H2 t s pub Ht).
 Qed.
 Print Assumptions xlm_decode_accepts_iff.
 
-(* Filecoin: 24 bytes are 39 symbols with THREE spare bits; a trailing '=' is accepted too *)
+(* Filecoin: 24 bytes are 39 symbols with three spare bits; the decoder re-encodes and compares:
+   accepted <-> "f1" followed by EncodeNoPadding(hash ++ checksum) for a 20-byte hash *)
 Theorem fil_decode_accepts_iff : forall (blake2b : nat -> list N -> list N) s h,
-  (fil_decode blake2b b32_dec s = Ok h <->
+  (fil_decode blake2b b32_enc_nopad b32_dec s = Ok h <->
    exists body, s = fil_prefix ++ (48 + fil_secp_type) :: body /\
      b32_dec (Some fil_alphabet) body = Ok (h ++ fil_checksum blake2b fil_secp_type h) /\
+     b32_enc_nopad (Some fil_alphabet) (h ++ fil_checksum blake2b fil_secp_type h) = Ok body /\
      length h = blake2b160_len /\ length (fil_checksum blake2b fil_secp_type h) = blake2b32_len) /\
-  (fil_decode blake2b b32_dec s = Ok h ->
-   length h = blake2b160_len /\
-   exists ds k pend, s = fil_prefix ++ (48 + fil_secp_type) :: map (sym32 fil_alphabet) ds ++ repeat rfc_pad k /\
-     length ds = 39%nat /\ Radix.digits_ok 32 ds /\ pend < 8 /\
-     Radix.from_be 32 ds = be_to_int (h ++ fil_checksum blake2b fil_secp_type h) * 8 + pend /\
-     (k = 0%nat -> pend = 0 ->
-      b32_enc_nopad (Some fil_alphabet) (h ++ fil_checksum blake2b fil_secp_type h) = Ok (map (sym32 fil_alphabet) ds))).
+  (xof_laws blake2b ->
+   (fil_decode blake2b b32_enc_nopad b32_dec s = Ok h <->
+    bytes_ok h /\ length h = blake2b160_len /\
+    exists body, b32_enc_nopad (Some fil_alphabet) (h ++ fil_checksum blake2b fil_secp_type h) = Ok body /\
+                 s = fil_prefix ++ (48 + fil_secp_type) :: body)).
 Proof.
-  intros b s h. split; [exact (Lemmas.AddrAcceptB32.fil_accepts_iff b b32_dec s h)|exact (Lemmas.AddrAcceptB32.fil_accepted_partial b s h)].
+  intros b s h. split; [exact (Lemmas.AddrAcceptB32.fil_accepts_iff b b32_enc_nopad b32_dec s h)|].
+  intros [H1 H2]. exact (Lemmas.AddrAcceptB32.fil_accepts_iff_concrete b H1 H2 s h).
 Qed.
 Print Assumptions fil_decode_accepts_iff.
 
-(* "f1aaa...a" (39) is the address; "f1aaa...ah" and "f1aaa...a=" are accepted (finding C10-FIL-NONCANON) *)
-Theorem fil_canonical_refuted : exists s1 s2 s3 pub_u,
-  fil_encode zero_blake b32_enc_nopad pub_u = Ok s1 /\ s2 <> s1 /\ s3 <> s1 /\
-  fil_decode zero_blake b32_dec s1 = Ok (zero_blake blake2b160_len pub_u) /\
-  fil_decode zero_blake b32_dec s2 = Ok (zero_blake blake2b160_len pub_u) /\
-  fil_decode zero_blake b32_dec s3 = Ok (zero_blake blake2b160_len pub_u).
-Proof. exact Lemmas.AddrAcceptB32.fil_canonical_refuted. Qed.
-Print Assumptions fil_canonical_refuted.
-
-(* Nano: 40 bytes = 64 symbols, no spare bits -- but [pad], the bytes in front of the key, is never compared with
-   the three zero bytes the encoder puts there; with that extra condition accepted = encoder output *)
+(* Nano: 40 bytes = 64 symbols, no spare bits; the bytes in front of the key are compared with zero:
+   accepted <-> the encoder's output for a valid key *)
 Theorem nano_decode_accepts_iff : forall (blake2b : nat -> list N -> list N) (valid_pub : N -> list N -> bool) s pub,
   (nano_decode blake2b valid_pub b32_dec s = Ok pub <->
-   exists a pad, s = nano_prefix ++ a /\
-     b32_dec (Some nano_alphabet) (nano_pad_enc ++ a) = Ok (pad ++ pub ++ nano_checksum blake2b pub) /\
-     length pad = length nano_pad_dec /\ length pub = (ed25519_compr_len - 1)%nat /\
+   exists a, s = nano_prefix ++ a /\
+     b32_dec (Some nano_alphabet) (nano_pad_enc ++ a) = Ok (nano_pad_dec ++ pub ++ nano_checksum blake2b pub) /\
+     length pub = (ed25519_compr_len - 1)%nat /\
      length (nano_checksum blake2b pub) = blake2b40_len /\ valid_pub 3 pub = true) /\
   (nano_decode blake2b valid_pub b32_dec s = Ok pub ->
-   valid_pub 3 pub = true /\ length pub = (ed25519_compr_len - 1)%nat /\
-   exists a pad, s = nano_prefix ++ a /\ length pad = length nano_pad_dec /\
-     b32_enc_nopad (Some nano_alphabet) (pad ++ pub ++ nano_checksum blake2b pub) = Ok (nano_pad_enc ++ a) /\
-     (pad = nano_pad_dec -> nano_encode blake2b b32_enc_nopad pub = Ok s)).
+   nano_encode blake2b b32_enc_nopad pub = Ok s /\ bytes_ok pub /\ length pub = (ed25519_compr_len - 1)%nat /\
+   valid_pub 3 pub = true) /\
+  (xof_laws blake2b ->
+   (nano_decode blake2b valid_pub b32_dec s = Ok pub <->
+    nano_encode blake2b b32_enc_nopad pub = Ok s /\ bytes_ok pub /\ length pub = (ed25519_compr_len - 1)%nat /\
+    valid_pub 3 pub = true)).
 Proof.
-  intros b vp s pub. split; [exact (Lemmas.AddrAcceptB32.nano_accepts_iff b vp b32_dec s pub)|
-                             exact (Lemmas.AddrAcceptB32.nano_accepted_partial b vp s pub)].
+  intros b vp s pub. split; [exact (Lemmas.AddrAcceptB32.nano_accepts_iff b vp b32_dec s pub)|].
+  split; [exact (Lemmas.AddrAcceptB32.nano_accepted_is_encoding b vp s pub)|].
+  intros [H1 H2]. exact (Lemmas.AddrAcceptB32.nano_accepts_iff_concrete b vp H1 H2 s pub).
 Qed.
 Print Assumptions nano_decode_accepts_iff.
 
-(* "nano_111...1" (60) is the address; "nano_4111...1" is accepted: 16 first characters per address
-   (finding C10-NANO-PADBITS) *)
-Theorem nano_canonical_refuted : exists s1 s2 pub,
-  nano_encode zero_blake b32_enc_nopad pub = Ok s1 /\ s2 <> s1 /\
-  nano_decode zero_blake any_valid b32_dec s1 = Ok pub /\
-  nano_decode zero_blake any_valid b32_dec s2 = Ok pub.
-Proof. exact Lemmas.AddrAcceptB32.nano_canonical_refuted. Qed.
-Print Assumptions nano_canonical_refuted.
+(* the non-canonical spellings accepted before the repairs (C10-ALGO-NONCANON, C10-FIL-NONCANON, C10-NANO-PADBITS)
+   are refused, although the Base32 layer still decodes them to the same bytes.  Instance: constant-zero hashes.
+   Algorand "AAA...A" (58) vs "AAA...AB", "AAA...A======"; Filecoin "f1aaa...a" (39) vs "...ah", "...a=";
+   Nano "nano_111...1" (60) vs "nano_4111...1" *)
+Theorem base32_noncanonical_rejected :
+  (exists s1 s2 s3 pub d,
+    algo_encode zero_hash b32_enc_nopad pub = Ok s1 /\
+    b32_dec None s1 = Ok d /\ b32_dec None s2 = Ok d /\ b32_dec None s3 = Ok d /\
+    algo_decode zero_hash any_valid b32_enc_nopad b32_dec s1 = Ok pub /\
+    algo_decode zero_hash any_valid b32_enc_nopad b32_dec s2 = Err ValueError /\
+    algo_decode zero_hash any_valid b32_enc_nopad b32_dec s3 = Err ValueError) /\
+  (exists s1 s2 s3 pub_u,
+    fil_encode zero_blake b32_enc_nopad pub_u = Ok s1 /\
+    fil_decode zero_blake b32_enc_nopad b32_dec s1 = Ok (zero_blake blake2b160_len pub_u) /\
+    fil_decode zero_blake b32_enc_nopad b32_dec s2 = Err ValueError /\
+    fil_decode zero_blake b32_enc_nopad b32_dec s3 = Err ValueError) /\
+  (exists s1 s2 pub,
+    nano_encode zero_blake b32_enc_nopad pub = Ok s1 /\
+    nano_decode zero_blake any_valid b32_dec s1 = Ok pub /\
+    nano_decode zero_blake any_valid b32_dec s2 = Err ValueError).
+Proof. exact Lemmas.AddrAcceptB32.base32_noncanonical_rejected. Qed.
+Print Assumptions base32_noncanonical_rejected.
 
 (* Nimiq: spaces are free (str.replace(' ', '')); otherwise the encoder's text (20 bytes = 32 symbols) *)
 Theorem nim_decode_accepts_iff : forall s d,
@@ -853,44 +859,45 @@ Section XmrStatements.
   Variable pdec : list N -> option G.
   Hypothesis keccak_len : forall x, length (keccak x) = 32%nat.
   Notation xmr_decode_addr := (AddrXmr.decode_addr keccak G pdec).
-  Notation xmr_checksum := (AddrXmr.checksum keccak).
+  Notation xmr_encode_key := (AddrXmr.encode_key keccak G pdec).
+  Notation xmr_addr_bytes := (AddrXmr.addr_bytes keccak).     (* net ‖ spend ‖ view ‖ id ‖ Keccak(..)[:4] *)
   Notation key_valid := (EdLib.pub_is_valid G pdec).
+  Notation pid_of := Lemmas.AddrAcceptXmr.pid_of.               (* the expected payment id, [] if none *)
+  Notation pid_ok := Lemmas.AddrAcceptXmr.pid_ok.               (* an expected payment id has 8 bytes *)
 
-  (* payid = None: XmrAddrDecoder; payid = Some p: XmrIntegratedAddrDecoder.  NOTE the last clause of the first
-     statement: the part after the two keys may be EMPTY whatever payment id is expected.
-     Second: the standard decoder.  Third (xmr_integrated_decode_partial): the exact extra condition under which the
-     integrated decoder does what the format says -- the decoded address has the with-payment-id length. *)
-  Theorem xmr_addr_decode_accepts_iff : forall s net,
-    (forall payid out, xmr_decode_addr s net payid = Ok out <->
-     exists ps pv rest,
-       AddrXmr.b58x_decode s = Ok ((net ++ ps ++ pv ++ rest) ++ xmr_checksum (net ++ ps ++ pv ++ rest)) /\
-       length ps = 32%nat /\ length pv = 32%nat /\ key_valid ps = true /\ key_valid pv = true /\ out = ps ++ pv /\
-       (rest = [] \/ (length rest = xmr_payid_len /\ payid = Some rest))) /\
-    (forall out, xmr_decode_addr s net None = Ok out <->
-     exists ps pv, AddrXmr.b58x_decode s = Ok ((net ++ ps ++ pv) ++ xmr_checksum (net ++ ps ++ pv)) /\
-       length ps = 32%nat /\ length pv = 32%nat /\ key_valid ps = true /\ key_valid pv = true /\ out = ps ++ pv) /\
-    (forall p out dec, xmr_decode_addr s net (Some p) = Ok out -> AddrXmr.b58x_decode s = Ok dec ->
-     length dec = (length net + 2 * 32 + xmr_payid_len + xmr_addr_cklen)%nat ->
-     exists ps pv, dec = (net ++ ps ++ pv ++ p) ++ xmr_checksum (net ++ ps ++ pv ++ p) /\ length p = xmr_payid_len /\
-       length ps = 32%nat /\ length pv = 32%nat /\ key_valid ps = true /\ key_valid pv = true /\ out = ps ++ pv).
-  Proof.
-    intros s net. split; [intros payid out; exact (Lemmas.AddrAcceptXmr.decode_addr_accepts_iff keccak G pdec keccak_len s net payid out)|].
-    split; [intros out; exact (Lemmas.AddrAcceptXmr.decode_standard_accepts_iff keccak G pdec keccak_len s net out)|
-            intros p out dec; exact (Lemmas.AddrAcceptXmr.decode_integrated_partial keccak G pdec keccak_len s net p out dec)].
-  Qed.
+  (* payid = None: XmrAddrDecoder; payid = Some p: XmrIntegratedAddrDecoder.
+     accepted <-> the block-Base58 decoding is the address layout for two valid keys and EXACTLY the expected id *)
+  Theorem xmr_addr_decode_accepts_iff : forall s net payid out,
+    xmr_decode_addr s net payid = Ok out <->
+    exists ps pv,
+      AddrXmr.b58x_decode s = Ok (xmr_addr_bytes net ps pv (pid_of payid)) /\ pid_ok payid /\
+      length ps = 32%nat /\ length pv = 32%nat /\ key_valid ps = true /\ key_valid pv = true /\ out = ps ++ pv.
+  Proof. exact (Lemmas.AddrAcceptXmr.decode_addr_accepts_iff keccak G pdec keccak_len). Qed.
+
+  (* exact equality with the encoder (Base58 has no case rule): accepted <-> the string is the output of
+     XmrAddrEncoder / XmrIntegratedAddrEncoder for two valid keys.  Relative to canonicity of the block-Base58 decoder
+     of Model/XmrB58.v ([b58x_canon]; a theorem for the twin model Base58Xmr.v -- xmr_b58_accepts_iff above --, and for
+     XmrB58.v itself in the contributor link's Lemmas/LinkXmr.v, b58x_encode_decode, not yet part of this tree) *)
+  Theorem xmr_addr_decode_accepts_iff_encoder :
+    (forall x, bytes_ok (keccak x)) ->
+    (forall s b, AddrXmr.b58x_decode s = Ok b -> AddrXmr.b58x_encode b = s /\ bytes_ok b) ->
+    forall s net payid out, bytes_ok net -> (match payid with Some p => bytes_ok p | None => True end) ->
+    (xmr_decode_addr s net payid = Ok out <->
+     exists ps pv, out = ps ++ pv /\ length ps = 32%nat /\ length pv = 32%nat /\ bytes_ok ps /\ bytes_ok pv /\
+                   key_valid ps = true /\ key_valid pv = true /\ xmr_encode_key ps pv net payid = Ok s).
+  Proof. exact (Lemmas.AddrAcceptXmr.decode_addr_accepts_iff_encoder keccak G pdec keccak_len). Qed.
 End XmrStatements.
 Print Assumptions xmr_addr_decode_accepts_iff.
+Print Assumptions xmr_addr_decode_accepts_iff_encoder.
 
-(* Full statement for XmrIntegratedAddrDecoder
-     xmr_decode_addr s net (Some p) = Ok out -> the decoded payload ends in the payment id p
-   is FALSE (finding C10-XMR-INTEG-LEN): the text of a STANDARD address (69 bytes: no room for a payment id) is
-   accepted for EVERY expected payment id.  Instance: constant-zero Keccak, every 32-byte string a key. *)
-Theorem xmr_integrated_payment_id_refuted : exists s net dec,
+(* the witness of the repaired finding C10-XMR-INTEG-LEN: the text of a STANDARD address (no room for a payment id)
+   is refused by the integrated decoder for EVERY expected payment id.  Instance: constant-zero Keccak. *)
+Theorem xmr_integrated_rejects_plain_payload : exists s net,
   AddrXmr.encode_key Lemmas.AddrAcceptXmr.zero_keccak unit Lemmas.AddrAcceptXmr.all_keys (repeat 0 32) (repeat 0 32) net None = Ok s /\
-  AddrXmr.b58x_decode s = Ok dec /\ length dec = (length net + 2 * 32 + xmr_addr_cklen)%nat /\
-  forall p, AddrXmr.decode_addr Lemmas.AddrAcceptXmr.zero_keccak unit Lemmas.AddrAcceptXmr.all_keys s net (Some p) = Ok (repeat 0 64).
-Proof. exact Lemmas.AddrAcceptXmr.integrated_payment_id_refuted. Qed.
-Print Assumptions xmr_integrated_payment_id_refuted.
+  AddrXmr.decode_addr Lemmas.AddrAcceptXmr.zero_keccak unit Lemmas.AddrAcceptXmr.all_keys s net None = Ok (repeat 0 64) /\
+  forall p, AddrXmr.decode_addr Lemmas.AddrAcceptXmr.zero_keccak unit Lemmas.AddrAcceptXmr.all_keys s net (Some p) = Err ValueError.
+Proof. exact Lemmas.AddrAcceptXmr.integrated_rejects_plain_payload. Qed.
+Print Assumptions xmr_integrated_rejects_plain_payload.
 
 (* ================================================================== Cardano Shelley *)
 (* header byte: type 0000 (payment key + stake key) resp. 1110 (reward) in the high nibble, network tag in the low *)
@@ -944,20 +951,23 @@ Proof. exact Lemmas.AddrAcceptAda.byron_accepted_partial. Qed.
 Print Assumptions ada_byron_accepted_partial.
 
 (* without that hypothesis it is FALSE, already for parsers satisfying every law the C18 round-trip theorem assumes
-   of cbor2 (last clause: the lenient parser satisfies the outer law): s2 writes the CRC in a non-minimal head; s3 has
-   a byte after the CBOR item, which a parser that -- like cbor2.loads -- stops after the first item never sees
-   (finding C10-BYRON-TRAILING) *)
+   of cbor2: s2 writes the CRC in a non-minimal head (well-formed CBOR per RFC 8949, accepted by cbor2 and by the
+   library).  Bytes after the CBOR item are refused by a reader that demands exactly one item, as the repaired
+   library does (finding C10-BYRON-TRAILING, fixed): second clause *)
 Theorem ada_byron_canonical_refuted :
-  (exists s1 s2 s3 out,
+  (exists s1 s2 out,
     AddrAdaByron.encode_key Lemmas.AddrAcceptAda.zero28 Lemmas.AddrAcceptAda.zero28 Lemmas.AddrAcceptAda.zero_crc [] [] None = s1 /\
-    s2 <> s1 /\ s3 <> s1 /\
+    s2 <> s1 /\
     AddrAdaByron.decode_addr Lemmas.AddrAcceptAda.zero_crc Lemmas.CborEnc.toy_parse_outer Lemmas.CborEnc.toy_parse_payload
       Lemmas.CborEnc.toy_parse_bytes s1 = Ok out /\
     AddrAdaByron.decode_addr Lemmas.AddrAcceptAda.zero_crc Lemmas.CborEnc.toy_parse_outer Lemmas.CborEnc.toy_parse_payload
-      Lemmas.CborEnc.toy_parse_bytes s2 = Ok out /\
-    AddrAdaByron.decode_addr Lemmas.AddrAcceptAda.zero_crc Lemmas.AddrAcceptAda.lenient_parse_outer Lemmas.CborEnc.toy_parse_payload
-      Lemmas.CborEnc.toy_parse_bytes s3 = Ok out) /\
-  (forall (crc : list N -> N) tag p, (length p < 4096)%nat -> tag < 2 ^ 64 -> crc p < 2 ^ 64 ->
-    Lemmas.AddrAcceptAda.lenient_parse_outer (cbor_array [cbor_tag tag (cbor_bytes p); cbor_uint (crc p)]) = Some (tag, p, crc p)).
-Proof. split; [exact Lemmas.AddrAcceptAda.byron_canonical_refuted|exact Lemmas.AddrAcceptAda.lenient_parse_outer_enc]. Qed.
+      Lemmas.CborEnc.toy_parse_bytes s2 = Ok out) /\
+  (exists s1 s3 out,
+    AddrAdaByron.encode_key Lemmas.AddrAcceptAda.zero28 Lemmas.AddrAcceptAda.zero28 Lemmas.AddrAcceptAda.zero_crc [] [] None = s1 /\
+    AddrAdaByron.b58dec s3 = rmap (fun b => b ++ [0]) (AddrAdaByron.b58dec s1) /\
+    AddrAdaByron.decode_addr Lemmas.AddrAcceptAda.zero_crc Lemmas.CborEnc.toy_parse_outer Lemmas.CborEnc.toy_parse_payload
+      Lemmas.CborEnc.toy_parse_bytes s1 = Ok out /\
+    AddrAdaByron.decode_addr Lemmas.AddrAcceptAda.zero_crc Lemmas.CborEnc.toy_parse_outer Lemmas.CborEnc.toy_parse_payload
+      Lemmas.CborEnc.toy_parse_bytes s3 = Err ValueError).
+Proof. split; [exact Lemmas.AddrAcceptAda.byron_canonical_refuted|exact Lemmas.AddrAcceptAda.byron_trailing_byte_rejected]. Qed.
 Print Assumptions ada_byron_canonical_refuted.
